@@ -8,6 +8,7 @@
   Helper lemmas: `ClarabelProofs/Lemmas/Loop.lean`.
 -/
 import ClarabelProofs.Lemmas.Loop
+import ClarabelProofs.Props.C09
 
 namespace Clarabel.C04
 open Clarabel Clarabel.Loop
@@ -173,6 +174,23 @@ theorem dimension_guard (Pm Pn qlen Am An blen : Nat) (cones : List Nat) :
     subst h4
     simp [h2]
     rfl
+
+/-- [S] `C04.collapse_wf` (corollary of C09's collapse theorems): after `new_collapsed` no cone is
+empty, every second-order cone has dimension ≥ 2 (so the `assert!(dim >= 2)` of
+`SecondOrderCone::new` cannot fire), every PSD cone has side ≥ 2, and the total number of rows
+is preserved (so `assert_eq!(cones.numel, data.m)` in `DefaultSolver::new` holds whenever the
+dimension guard passed). -/
+theorem collapse_wf {β : Type} (cones : List (ConeT β)) :
+    (∀ c ∈ Cones.newCollapsed cones, c.nvars ≠ 0)
+      ∧ (∀ n, ConeT.soc n ∈ Cones.newCollapsed cones → 2 ≤ n)
+      ∧ (∀ n, ConeT.psd n ∈ Cones.newCollapsed cones → 2 ≤ n)
+      ∧ Cones.numel (Cones.newCollapsed cones) = Cones.numel cones :=
+  ⟨C09.collapse_no_empty cones, (C09.collapse_soc_dim cones).1, (C09.collapse_soc_dim cones).2,
+   C09.collapse_numel cones⟩
+
+/-- non-vacuity: empty cones and singletons are really removed / merged -/
+example : Cones.newCollapsed ([.zero 0, .nonneg 2, .soc 1, .soc 0, .psd 1, .soc 3] : List (ConeT Nat))
+    = ([.nonneg 4, .soc 3] : List (ConeT Nat)) := by rfl
 
 /-! non-vacuity on a concrete scalar type -/
 namespace Examples
